@@ -612,7 +612,10 @@ func (b *Builder) recvTerm(sel *ast.SelectorExpr, sig *types.Signature) *Term {
 		return b.addrOf(base)
 	}
 	if !recvPtr && xPtr {
-		return mk("deref", "", base)
+		// value method called through a pointer: implicit dereference
+		dt := mk("deref", "", base)
+		b.site(&Site{Kind: "deref", Pos: sel.Sel.Pos(), T: dt, Base: base, Why: "value method " + sel.Sel.Name})
+		return dt
 	}
 	return base
 }
